@@ -29,10 +29,56 @@ def waiting_future_writers(chk: Check, rule: str = 'FUT-multi-writer'):
     return sites
 
 
+def rearm_after_interruption(chk: Check, rule: str) -> None:
+    """After an interruption the waiting future is replaced before the interruption is re-raised -- by a fresh future, or
+    by None when the future is created lazily; in the lazy form every direct use of the attribute must know it exists
+    (a writer that meets None raises AttributeError in an event-loop callback: the wake-up is lost).  Shared with C05."""
+    from ..facts import not_none
+    prog = chk.prog
+    we = prog.func('process_states.Waiting.execute')
+    rearm_ok = False
+    for t in [n for n in ast.walk(we.node) if isinstance(n, ast.Try)]:
+        for h in t.handlers:
+            if h.type is not None and unparse(h.type).split('.')[-1] == 'Interruption':
+                assigns = [i for i, s in enumerate(h.body) if isinstance(s, ast.Assign) and any(norm(x) == LOC for x in s.targets)
+                           and ((isinstance(s.value, ast.Call) and norm(s.value.func).split('.')[-1] == 'Future') or norm(s.value) == 'None')]
+                raises = [i for i, s in enumerate(h.body) if isinstance(s, ast.Raise) and s.exc is None]
+                rearm_ok = bool(assigns) and bool(raises) and assigns[0] < raises[0]
+    chk.ob(rule, we, rearm_ok, 'after an interruption the waiting future is replaced (by a fresh one, or dropped for lazy re-creation) before the '
+           'interruption is re-raised (the state can be executed again)', kind='rearm-after-interruption')
+    nullable = []
+    for c in waiting_classes(prog):
+        for f in c.methods.values():
+            for n in ast.walk(f.node):
+                if isinstance(n, (ast.Assign, ast.AnnAssign)) and n.value is not None and norm(n.value) == 'None' and any(norm(t) == LOC for t in (n.targets if isinstance(n, ast.Assign) else [n.target])):
+                    nullable.append((f, n))
+    chk.units['waiting_future_nullable'] = [f'{f.short}:{n.lineno}' for f, n in nullable]
+    if not nullable:
+        return
+    n_deref = 0
+    for c in waiting_classes(prog):
+        for f in c.methods.values():
+            ff = chk.ctx.facts.analyse(f)
+            for x in ast.walk(f.node):
+                deref = None
+                if isinstance(x, ast.Attribute) and isinstance(x.ctx, ast.Load) and norm(x.value) == LOC:
+                    deref = x
+                elif isinstance(x, ast.Await) and norm(x.value) == LOC:
+                    deref = x
+                if deref is None:
+                    continue
+                n_deref += 1
+                nodes = ff.cfg.nodes_containing(deref)
+                ok = bool(nodes) and all(not_none(ff.at(m), LOC) for m in nodes)
+                chk.ob(rule, f, ok, f'the waiting future may be absent ({", ".join(chk.units["waiting_future_nullable"])} store None) and this use does not know it exists: '
+                       'it raises AttributeError / TypeError instead of waking or interrupting the step', node=deref, kind='use-of-absent-future')
+    chk.units['waiting_future_direct_uses'] = n_deref
+
+
 def run(chk: Check) -> None:
     prog = chk.prog
     sites = waiting_future_writers(chk)
-    chk.floor('FUT-multi-writer', len(sites), 4)
+    chk.floor('FUT-multi-writer', len(sites), 2)
     roles = sorted({s.func.qualname for s in sites})
     chk.units['writer_roles'] = roles
     chk.need(len(roles) >= 2, 'fewer than two writer roles on the waiting future: conflict rule vacuous')
@@ -52,18 +98,10 @@ def run(chk: Check) -> None:
 
     # the reader: Waiting.execute awaits the future once and re-arms it in the Interruption handler
     we = prog.func('process_states.Waiting.execute')
-    awaits = [n for n in ast.walk(we.node) if isinstance(n, ast.Await) and norm(n.value) == LOC]
+    wff = chk.ctx.facts.analyse(we)
+    awaits = [n for n in ast.walk(we.node) if isinstance(n, ast.Await) and wff.canon.key(n.value) == LOC]
     chk.ob('FUT-reader', we, len(awaits) == 1, 'the WAITING step awaits the waiting future exactly once', kind='await-once')
-    rearm_ok = False
-    for t in [n for n in ast.walk(we.node) if isinstance(n, ast.Try)]:
-        for h in t.handlers:
-            if h.type is not None and unparse(h.type).split('.')[-1] == 'Interruption':
-                assigns = [i for i, s in enumerate(h.body) if isinstance(s, ast.Assign) and any(norm(x) == LOC for x in s.targets)
-                           and isinstance(s.value, ast.Call) and norm(s.value.func).split('.')[-1] == 'Future']
-                raises = [i for i, s in enumerate(h.body) if isinstance(s, ast.Raise) and s.exc is None]
-                rearm_ok = bool(assigns) and bool(raises) and assigns[0] < raises[0]
-    chk.ob('FUT-reader', we, rearm_ok, 'after an interruption the waiting future is replaced by a fresh one before the '
-           'interruption is re-raised (the state can be executed again)', kind='rearm-after-interruption')
+    rearm_after_interruption(chk, 'FUT-reader')
     resume_value_forwarding(chk, 'FWD-resume')
 
     # Process.resume forwards *args under @event(from_states=Waiting)
@@ -107,5 +145,11 @@ def run(chk: Check) -> None:
     ok = len(stores) == 1 and res.text(stores[0].targets[0].slice) == f'self._awaiting.pop({aparam})' and res.text(stores[0].value) == f'{aparam}.result()'
     chk.ob('FWD-awaitable-result', ad, ok, 'a completed awaitable\'s result is stored in the context under '
            'the key it was registered with', node=stores[0] if stores else ad.node, kind='result-into-context')
+    # "... it continues once it is playing": the pause gate the woken-up step sits behind is released by play(), and a pause
+    # request never replaces a pause future somebody awaits (obligations shared with C05)
+    from . import c05
+    c05.pause_gate(chk)
+    c05.pause_ladder(chk)
+    c05.status_pairing(chk)
     chk.assumptions.append('resume(), pause(), kill() and done-callbacks run as separate event-loop callbacks or inside '
                            'uncontrolled calls: between a writer of the waiting future and its reader anything may run')
